@@ -123,6 +123,22 @@ def eventClass (i j : Nat) : String :=
   let fired := i == 0 || i == j
   "OK LOG " ++ (if fired then mark 1 else "")
 
+/-- does `v` reach a container that is already on the path to it? (list identity = backing array) -/
+partial def cyclicFrom (st : St) (path : List (Bool × Nat)) (v : Val) : Bool :=
+  match v with
+  | .list r _ =>
+    if path.contains (true, r) then true else (st.lists.getD r []).any (cyclicFrom st ((true, r) :: path))
+  | .map r =>
+    if path.contains (false, r) then true else (st.maps.getD r []).any fun p => cyclicFrom st ((false, r) :: path) p.2
+  | _ => false
+
+/-- the heap the program left holds a container that contains itself -/
+def heapCyclic : Result → Bool
+  | .done _ st =>
+    (List.range st.lists.size).any (fun r => cyclicFrom st [] (.list r 0)) ||
+    (List.range st.maps.size).any (fun r => cyclicFrom st [] (.map r))
+  | _ => false
+
 def hasCycleKf (label : String) : Bool := label == "cyclic"
 
 def runCase (payload : String) : String :=
@@ -131,8 +147,16 @@ def runCase (payload : String) : String :=
     match decodePayload (" ".intercalate rest) with
     | none => "bad-payload"
     | some prog =>
-      let (c, log) := classify (runProgram prog)
-      if label == "cyclic" then
+      let res := runProgram prog
+      let (c, log) := classify res
+      let outside := match c with | .unsup _ => true | .hang => true | _ => false
+      if label == "random" && heapCyclic res && outside then
+        "UNSUP a container that contains itself, outcome outside the model"
+      else if label == "random" && heapCyclic res then
+        -- the program built a container that contains itself: if it also stringifies it the real code
+        -- dies (known finding), otherwise it behaves as the model says
+        "CRASH\tkf=cyclic-container-stringify\tspec=" ++ modeResult mode c log ++ "\tnt=1"
+      else if label == "cyclic" then
         -- known finding: the real code overflows the stack; the property demands an error value
         "CRASH\tkf=cyclic-container-stringify\tspec=ERR\tnt=1"
       else
